@@ -529,6 +529,6 @@ VARIANTS = [
     V("inverted results guard", "keep", _R,
       "        if not self.cancelled and not self.error:\n            final_results = metrics.calculate_results(self.metrics_store, self.race)\n            self.race.add_results(final_results)\n            self.race_store.store_race(self.race)\n            metrics.results_store(self.cfg).store_results(self.race)\n            reporter.summarize(final_results, self.cfg)\n        else:\n            self.logger.info(\"Suppressing output of summary report. Cancelled = [%r], Error = [%r].\", self.cancelled, self.error)",
       "        if self.cancelled or self.error:\n            self.logger.info(\"Suppressing output of summary report. Cancelled = [%r], Error = [%r].\", self.cancelled, self.error)\n        else:\n            final_results = metrics.calculate_results(self.metrics_store, self.race)\n            self.race.add_results(final_results)\n            self.race_store.store_race(self.race)\n            metrics.results_store(self.cfg).store_results(self.race)\n            reporter.summarize(final_results, self.cfg)"),
-    V("rename worker parent attribute consistently", "keep", _D, "self.task_preparation_actor", "self.parent_actor", count=7),
+    V("rename worker parent attribute consistently", "keep", _D, "self.task_preparation_actor", "self.parent_actor", count=9),
     V("extra logging before forward", "keep", _M, "    def receiveMsg_BenchmarkFailure(self, msg, sender):\n        self.send(self.race_control, msg)", "    def receiveMsg_BenchmarkFailure(self, msg, sender):\n        self.logger.error('forwarding failure')\n        self.send(self.race_control, msg)"),
 ]
